@@ -131,6 +131,12 @@ impl Group for P256Group {
     }
 
     fn deserialize(buf: &Self::Serialization) -> Result<Self::Element, GroupError> {
+        // Only the SEC 1 compressed form is a valid encoding. In particular
+        // the "compact" form (tag 0x05) also fits in 33 bytes and would be
+        // decoded by `Sec1Point`, yielding a second encoding for a point.
+        if !matches!(buf.first(), Some(0x02 | 0x03)) {
+            return Err(GroupError::MalformedElement);
+        }
         let encoded_point =
             p256::Sec1Point::from_bytes(buf).map_err(|_| GroupError::MalformedElement)?;
 
